@@ -57,6 +57,27 @@ class Runner(Exec):
                 raise Unsupported("statement %s" % type(s).__name__, s)
             m(st, s)
 
+    def run_block_split(self, st, stmts):
+        """Like run_block, but `if` statements fork the rest of the block instead of merging (path splitting):
+        returns the list of states that reach the end of the block."""
+        ctx = self.ctx
+        for i, s in enumerate(stmts):
+            if st.dead:
+                return []
+            if isinstance(s, ast.If):
+                c = truth(ctx, st, self.ev(st, s.test), s.test)
+                if st.dead:
+                    return []
+                outs = []
+                for cond, body in ((c, s.body), (z3.Not(c), s.orelse)):
+                    if z3.is_false(z3.simplify(cond)):
+                        continue
+                    b = st.fork(cond)
+                    outs.extend(self.run_block_split(b, list(body) + list(stmts[i + 1:])))
+                return outs
+            self.run_block(st, [s])
+        return [] if st.dead else [st]
+
     def st_Pass(self, st, s):
         pass
 
@@ -206,14 +227,37 @@ class Runner(Exec):
             self.deliver_raise(st, cur, s)
             return
         exc = s.exc
+        argvals = []
         if isinstance(exc, ast.Call):
             clsv = self.ev(st, exc.func)
             for a in list(exc.args) + [k.value for k in exc.keywords]:
-                self.ev_tolerant(st, a)
+                v = self.ev_tolerant(st, a)
+                if isinstance(a, ast.Starred) and v is not None and v.k == "tuple":
+                    argvals.extend(v.z)
+                else:
+                    argvals.append(v)
         else:
             clsv = self.ev(st, exc)
         if clsv.k != "conc" or not (isinstance(clsv.z, type) and issubclass(clsv.z, BaseException)):
             raise Unsupported("raise of non-class", s)
+        for ((txt, node), glob, why) in self.reg.raise_requires.get(clsv.z, []):
+            from .calls import contract_frame
+            from .symexec import Frame
+
+            fr0 = ctx.frames[-1]
+            fr = Frame("raise-requires", fr0.modname)
+            fr.locals_assigned = set()
+            fr.sidecar_globals = glob
+            fr.loop_ordinals = {}
+            fr.invariants = {}
+            fr.old_state = fr0.old_state
+            ctx.frames.append(fr)
+            try:
+                extra = {"a%d" % i: v for i, v in enumerate(argvals) if v is not None}
+                z = self.ev_spec(st, node, extra)
+            finally:
+                ctx.frames.pop()
+            ctx.oblige(st, z, "explainable", s, "%s can be explained: %s (%s)" % (clsv.z.__name__, txt, why))
         self.deliver_raise(st, clsv.z, s)
 
     def ev_tolerant(self, st, e):
@@ -221,6 +265,8 @@ class Runner(Exec):
         try:
             return self.ev(st, e)
         except Unsupported:
+            if isinstance(e, ast.Starred):
+                return self.ev_tolerant(st, e.value)
             for child in ast.iter_child_nodes(e):
                 if isinstance(child, ast.expr):
                     self.ev_tolerant(st, child)
@@ -457,8 +503,12 @@ class Runner(Exec):
                 self.assign_target(body_st, s.target, self.load_elem(body_st, mode[1], k, s), s)
             body_st.env[hidden] = mk_int(k + step)
         self.run_ghost(body_st, "%s.body_start" % tag)
-        self.run_block(body_st, body)
-        ends = [body_st] + ctl.continues
+        contract = getattr(fr, "contract", None)
+        if contract is not None and ordn in getattr(contract, "split_loops", []):
+            ends = self.run_block_split(body_st, body) + ctl.continues
+        else:
+            self.run_block(body_st, body)
+            ends = [body_st] + ctl.continues
         fr.loops.pop()
         for e in ends:
             if not e.dead:
@@ -652,8 +702,14 @@ class Runner(Exec):
         for (r, f, c) in out:
             if c is not None and (_arrays_in(c) & modified):
                 c = None
+            if r is not None and (_arrays_in(r) & modified):
+                # the target object is read from a field the loop itself may overwrite: which object is
+                # modified is not known at the loop head -> the whole field is havocked (frame via invariant)
+                r, c = None, None
             final.append((r, f, c))
-        return final
+        # whole-field entries subsume ref-specific ones
+        whole = set(f for (r, f, c) in final if r is None)
+        return [(r, f, c) for (r, f, c) in final if r is None or f not in whole]
 
     def field_arrays_of(self, key):
         t = self.field_type(key)
